@@ -35,7 +35,7 @@ func runC07(r *rt.Run) {
 	}
 	r.Bounds["deviations"] = "1 for every seed; 2 for seeds of <= 26 tokens (thorough: <= 64 tokens)"
 	check := func(text string, w *rt.Worker) {
-		for _, os := range []optSet{optDefault, optAlt} {
+		for _, os := range []optSet{optDefault, optAlt, optNoCircle} {
 			v, _ := c07One(text, os, func(class string, c rt.Case, exp, got string) {
 				w.Fail(class, func() (rt.Case, string, string) { return c, exp, got })
 			})
@@ -85,7 +85,7 @@ func runC07(r *rt.Run) {
 		for vi, text := range []string{large[i], large[i][:len(large[i])-1], large[i] + "x", " \n" + large[i] + "\t "} {
 			w.States++
 			w.Nontriv++
-			for _, os := range []optSet{optDefault, optAlt} {
+			for _, os := range []optSet{optDefault, optAlt, optNoCircle, optNoCircleSimple} {
 				w.Evals++
 				c07One(text, os, func(class string, c rt.Case, exp, got string) {
 					c.Doc = fmt.Sprintf("large#%d/variant%d", i, vi)
